@@ -34,7 +34,7 @@ NAMES = ["alpha", "a_b", "prj", "notes", "p", "in_box", "log2024", "x1"]
 def setup_worker() -> None:
     import zorg.app.runners._run_file as rf
 
-    harness.COUNTERS.watch("run_file_rename", rf.run_file_rename.__wrapped__ if hasattr(rf.run_file_rename, "__wrapped__") else rf.run_file_rename)
+    harness.COUNTERS.watch_attr(rf, "run_file_rename")
     TRACER.install()
 
 
